@@ -87,7 +87,7 @@ func (s *hoState) clientUDP(a, cs int, tag string) {
 	e0 := s.ended.Load()
 	k := vKeys[vClassKey[cs]]
 	key, _ := shadowsocks.NewEncryptionKey(k.cipher, k.secret)
-	c, err := net.Dial("udp", s.h.u.dialAddr(a))
+	c, err := vDialUDP(s.h.u.dialAddr(a))
 	if err != nil {
 		return
 	}
